@@ -441,3 +441,40 @@ S('c06-overwrite-or-form', ['C06', 'C15'], [(RESTORER,
                     trashed_file.original_location))
 """)],
   'guard written as "if overwrite or not exists"')
+
+# ------------------------------------------------------------------ C03
+FMT = 'trashcli/put/format_trash_info.py'
+PPATH = 'trashcli/parse_trashinfo/parse_path.py'
+PINFO = 'trashcli/parse_trashinfo/parse_trashinfo.py'
+F('c03-safe-percent', {'C03': ['R03.1']}, [(FMT, "return url_quote(original_location, '/')",
+  "return url_quote(original_location, '/%')")], 'percent sign left unescaped')
+F('c03-unquote-plus', {'C03': ['R03.1']}, [(PPATH,
+  "from six.moves.urllib.parse import unquote\n", "from six.moves.urllib.parse import unquote_plus as unquote\n")],
+  'readers decode with unquote_plus')
+F('c03-date-space', {'C03': ['R03.3']}, [(FMT, 'deletion_date.strftime("%Y-%m-%dT%H:%M:%S")',
+  'deletion_date.strftime("%Y-%m-%d %H:%M:%S")')], 'date written with a space')
+F('c03-key-with-space', {'C03': ['R03.2']}, [(FMT, '"Path=%s\\n"', '"Path = %s\\n"')],
+  'key written as "Path ="')
+F('c03-no-header', {'C03': ['R03.2']}, [(FMT, '"[Trash Info]\\n" +', '"" +')], 'header dropped')
+F('c03-slice-4', {'C03': ['R03.4']}, [(PPATH, "unquote(line[len('Path='):])", "unquote(line[4:])")],
+  'reader slices at the wrong offset')
+F('c03-double-unquote', {'C03': ['R03.1']}, [(PPATH, "unquote(line[len('Path='):])",
+  "unquote(unquote(line[len('Path='):]))")], 'reader decodes twice')
+F('c03-reader-format', {'C03': ['R03.3']}, [(PINFO, '"DeletionDate=%Y-%m-%dT%H:%M:%S"',
+  '"DeletionDate=%Y-%m-%d %H:%M:%S"')], 'reader parses another date format')
+F('c03-last-path-wins', {'C03': ['R03.3'], 'C20': ['R20.4']}, [(PPATH,
+  "    for line in contents.split('\\n'):\n        if line.startswith('Path='):\n            return unquote(line[len('Path='):])\n    raise ParseError('Unable to parse Path')",
+  "    found = None\n    for line in contents.split('\\n'):\n        if line.startswith('Path='):\n            found = unquote(line[len('Path='):])\n    if found is None:\n        raise ParseError('Unable to parse Path')\n    return found")],
+  'last Path= line wins')
+F('c03-latin1', {'C03': ['R03.2']}, [(FMT, ".encode('utf-8')", ".encode('latin-1')")],
+  'content encoded as latin-1')
+S('c03-safe-keyword', ['C03'], [(FMT, "return url_quote(original_location, '/')",
+  "return url_quote(original_location, safe='/')")], 'safe given by keyword')
+S('c03-fstring-template', ['C03', 'C05'], [(FMT,
+  """    content = ("[Trash Info]\\n" +
+               "Path=%s\\n" % format_original_location(original_location) +
+               "DeletionDate=%s\\n" % format_date(deletion_date)).encode('utf-8')""",
+  """    p = format_original_location(original_location)
+    d = format_date(deletion_date)
+    content = f"[Trash Info]\\nPath={p}\\nDeletionDate={d}\\n".encode('utf-8')""")],
+  'template as f-string')
